@@ -842,6 +842,10 @@ func init() {
 			c.ScatterIndexDiscipline("C05")
 			c.SignIffApproved("C05", map[string]bool{"SignGeneric": true, "Multisign": true})
 			c.SigningRootProvenance("C05")
+			// a refusal decided for a request (its domain, its source address) is of use only if the reply it gets is its own
+			c.RequestMessageScoped("C08")
+			c.ReplyRequestScoped("C16")
+			c.CredentialsRequestScoped("C19")
 		},
 		Explanation: "Domain gates decided on every path: the generic rule's APPROVED is cut by [domain type != attester] and [!= proposer] and, below the exit-type edge, by a non-empty source address that matched an administrator entry; the attestation/proposal rules' APPROVED is cut by [domain type == their own]; the ruler evaluates under each action the rule for the data type the endpoints send under it; both generic endpoints sign only APPROVED requests and sign the very domain that was checked. See DESIGN.md §5 C05.",
 		Trusted:     append([]string{"the numeric values of the e2types domain constants"}, commonTrusted...),
